@@ -4,7 +4,7 @@ use crate::cipher_impl::alg_name;
 use cipher::{
     AlgorithmName, AsyncStreamCipher, BlockModeDecrypt, BlockModeEncrypt, BlockSizeUser,
     IvState, StreamCipher, StreamCipherCore, StreamCipherSeek, StreamCipherSeekCore,
-    array::Array, block_padding::Pkcs7, inout::InOutBuf, typenum::Unsigned,
+    array::Array, block_padding::{AnsiX923, Iso10126, Iso7816, NoPadding, Pkcs7, ZeroPadding}, inout::InOutBuf, typenum::Unsigned,
 };
 use core::fmt::Debug;
 use core::mem::MaybeUninit;
@@ -15,6 +15,25 @@ pub enum Res {
     Err,
     Unsupported,
 }
+
+/// the padded one-shots carry the padding scheme in their name: "padded" (PKCS#7), "padded:iso10126", ...
+pub fn is_padded(how: &str) -> bool {
+    how == "padded" || how.starts_with("padded:")
+}
+/// run `$body` with the type alias `$P` bound to the padding scheme named by `$how`
+macro_rules! pad_dispatch {
+    ($how:expr, $P:ident, $body:expr) => {
+        match $how {
+            "padded:iso10126" => { type $P = Iso10126; $body }
+            "padded:ansix923" => { type $P = AnsiX923; $body }
+            "padded:iso7816" => { type $P = Iso7816; $body }
+            "padded:zero" => { type $P = ZeroPadding; $body }
+            "padded:none" => { type $P = NoPadding; $body }
+            _ => { type $P = Pkcs7; $body }
+        }
+    };
+}
+
 
 pub struct IoOut {
     pub res: Res,
@@ -275,12 +294,12 @@ impl<M: EncMode + 'static> Obj for BlkEnc<M> {
                     None => IoOut::err(out),
                 }
             }
-            ("padded", None) => {
+            (h, None) if is_padded(h) => {
                 // in place: buffer = message followed by room for the padding
                 let bs = M::BlockSize::USIZE;
                 let mut buf = inp.to_vec();
                 buf.resize(bs * (inp.len() / bs + 1), 0xA5);
-                let r = m.encrypt_padded::<Pkcs7>(&mut buf, inp.len()).map(|s| s.len()).ok();
+                let r = pad_dispatch!(h, P, m.encrypt_padded::<P>(&mut buf, inp.len()).map(|s| s.len()).ok());
                 match r {
                     Some(n) => IoOut {
                         res: Res::Ok,
@@ -290,9 +309,15 @@ impl<M: EncMode + 'static> Obj for BlkEnc<M> {
                     None => IoOut::err(buf),
                 }
             }
-            ("padded", Some(j)) if inout && j.len() >= M::BlockSize::USIZE * (inp.len() / M::BlockSize::USIZE + 1) => {
-                // the allocating variant (cannot fail for lack of room, so only used when there is room)
-                let v = m.encrypt_padded_vec::<Pkcs7>(inp);
+            (h, Some(j))
+                if is_padded(h)
+                    && inout
+                    && j.len() >= M::BlockSize::USIZE * (inp.len() / M::BlockSize::USIZE + 1)
+                    && (h != "padded:none" || inp.len() % M::BlockSize::USIZE == 0) =>
+            {
+                // the allocating variant (it `expect`s success, so it is only used when there is room and - for
+                // NoPadding - the message is aligned)
+                let v = pad_dispatch!(h, P, m.encrypt_padded_vec::<P>(inp));
                 let n = v.len();
                 let mut out = j.to_vec();
                 out[..n].copy_from_slice(&v);
@@ -302,9 +327,9 @@ impl<M: EncMode + 'static> Obj for BlkEnc<M> {
                     outlen: n,
                 }
             }
-            ("padded", Some(j)) => {
+            (h, Some(j)) if is_padded(h) => {
                 let mut out = j.to_vec();
-                let r = m.encrypt_padded_b2b::<Pkcs7>(inp, &mut out).map(|s| s.len()).ok();
+                let r = pad_dispatch!(h, P, m.encrypt_padded_b2b::<P>(inp, &mut out).map(|s| s.len()).ok());
                 match r {
                     Some(n) => IoOut {
                         res: Res::Ok,
@@ -441,9 +466,9 @@ impl<M: DecMode + 'static> Obj for BlkDec<M> {
                     None => IoOut::err(out),
                 }
             }
-            ("padded", None) => {
+            (h, None) if is_padded(h) => {
                 let mut buf = inp.to_vec();
-                let r = m.decrypt_padded::<Pkcs7>(&mut buf).map(|s| s.len()).ok();
+                let r = pad_dispatch!(h, P, m.decrypt_padded::<P>(&mut buf).map(|s| s.len()).ok());
                 match r {
                     Some(n) => IoOut {
                         res: Res::Ok,
@@ -453,9 +478,9 @@ impl<M: DecMode + 'static> Obj for BlkDec<M> {
                     None => IoOut::err(buf),
                 }
             }
-            ("padded", Some(j)) if inout && j.len() >= inp.len() => {
+            (h, Some(j)) if is_padded(h) && inout && j.len() >= inp.len() => {
                 let mut out = j.to_vec();
-                match m.decrypt_padded_vec::<Pkcs7>(inp) {
+                match pad_dispatch!(h, P, m.decrypt_padded_vec::<P>(inp)) {
                     Ok(v) => {
                         let n = v.len();
                         out[..n].copy_from_slice(&v);
@@ -468,9 +493,9 @@ impl<M: DecMode + 'static> Obj for BlkDec<M> {
                     Err(_) => IoOut::err(out),
                 }
             }
-            ("padded", Some(j)) => {
+            (h, Some(j)) if is_padded(h) => {
                 let mut out = j.to_vec();
-                let r = m.decrypt_padded_b2b::<Pkcs7>(inp, &mut out).map(|s| s.len()).ok();
+                let r = pad_dispatch!(h, P, m.decrypt_padded_b2b::<P>(inp, &mut out).map(|s| s.len()).ok());
                 match r {
                     Some(n) => IoOut {
                         res: Res::Ok,
